@@ -528,7 +528,7 @@ impl OGrid {
 fn perturbations(t: &[Vec<i64>]) -> [Vec<Vec<i64>>; 3] {
     let mut p1 = t.to_vec();
     match p1.last_mut().and_then(|r| r.last_mut()) {
-        Some(x) => *x += 1,
+        Some(x) => *x = x.wrapping_add(1),
         None => p1.push(vec![]),
     }
     let mut p2 = t.to_vec();
@@ -586,7 +586,7 @@ fn tok_b(v: Option<bool>) -> String {
 
 /// Observe the real array through every public accessor (the token layout is the one of
 /// `SV.C12.Driver.observe`) and check each value against the plain grid.
-fn observe(arr: &Arr2D<i64>, g: &OGrid, ck: &mut Check) -> String {
+fn observe(arr: &Arr2D<i64>, g: &OGrid, ck: &mut Check, heavy: bool) -> String {
     let mut s = String::with_capacity(512);
     let (h, w) = arr.shape();
     write!(s, "S {h} {w} {} {}", arr.size(), arr.is_empty() as u8).unwrap();
@@ -690,7 +690,307 @@ fn observe(arr: &Arr2D<i64>, g: &OGrid, ck: &mut Check) -> String {
     }
     // a clone is equal to its original
     ck.that(catch(|| arr.clone() == *arr) == Some(true), || "clone() differs from the original".into());
+    // further views of the same array that are not part of the printed observation (oracle only)
+    if ck.fails.is_empty() {
+        side_checks(arr, g, ck, heavy);
+    }
     s
+}
+
+/// the layout of the documentation example for already formatted items (ASCII)
+fn text_of(h: usize, w: usize, items: &[Vec<String>]) -> String {
+    if h == 0 || w == 0 {
+        return "[]\n".into();
+    }
+    let widths: Vec<usize> = (0..w).map(|c| (0..h).map(|r| items[r][c].chars().count()).max().unwrap()).collect();
+    let mut s = String::new();
+    for r in 0..h {
+        s.push_str(if r == 0 { "[[ " } else { " [ " });
+        let row: Vec<String> = (0..w).map(|c| format!("{}{}", " ".repeat(widths[c] - items[r][c].chars().count()), items[r][c])).collect();
+        s.push_str(&row.join(", "));
+        s.push_str(if r + 1 == h { " ]]" } else { " ]\n" });
+    }
+    s
+}
+
+/// Observers beyond the printed observation vector, all judged against the plain grid: iterator protocol
+/// (size_hint, count, nth, last, `&mut` iteration), equality against nested vectors of other row lengths / other
+/// items in BOTH directions, the same array at other element types (f64, String, u8, i128: map, conversion, Display,
+/// max/min, indexing, equality), copying transpose, `as_scalar_unchecked`.
+fn side_checks(arr: &Arr2D<i64>, g: &OGrid, ck: &mut Check, heavy: bool) {
+    let (h, w) = (g.h, g.w);
+    // ---- iterator protocol
+    let it = catch(|| {
+        let mut it = arr.rows();
+        let h0 = it.size_hint();
+        let first = it.next().map(|r| r.to_vec());
+        let h1 = it.size_hint();
+        let via_ref = (&*arr).into_iter().size_hint();
+        (h0, first, h1, via_ref, arr.rows().count(), arr.rows().last().map(|r| r.to_vec()), arr.rows().nth(h / 2).map(|r| r.to_vec()), arr.rows().nth(h).is_none(), arr.rows().skip(1).map(|r| r.len()).collect::<Vec<_>>())
+    });
+    match it {
+        None => ck.that(false, || "a row-iterator method panicked".into()),
+        Some((h0, first, h1, via_ref, count, last, mid, past_end, lens)) => {
+            ck.that(h0 == (h, Some(h)) && via_ref == (h, Some(h)), || format!("rows().size_hint() = {h0:?} / {via_ref:?} for {h} rows"));
+            ck.that(first.as_ref() == g.rows.first(), || format!("rows().next() = {first:?}, grid row {:?}", g.rows.first()));
+            ck.that(h1 == (h.saturating_sub(1), Some(h.saturating_sub(1))), || format!("size_hint after one row = {h1:?} for {h} rows"));
+            ck.that(count == h, || format!("rows().count() = {count} for {h} rows"));
+            ck.that(last.as_ref() == g.rows.last(), || format!("rows().last() = {last:?}, grid row {:?}", g.rows.last()));
+            ck.that(mid.as_ref() == g.rows.get(h / 2), || format!("rows().nth({}) = {mid:?}, grid row {:?}", h / 2, g.rows.get(h / 2)));
+            ck.that(past_end, || "rows().nth(height) yields a row".into());
+            ck.that(lens.len() == h.saturating_sub(1) && lens.iter().all(|l| *l == w), || format!("rows().skip(1) row lengths {lens:?} for a {h}x{w} grid"));
+        }
+    }
+    let itm = catch(|| {
+        let mut c = arr.clone();
+        let h0 = c.rows_mut().size_hint();
+        let mut n1 = 0;
+        let mut ok_len = true;
+        for row in c.rows_mut() {
+            n1 += 1;
+            ok_len &= row.len() == w;
+        }
+        let mut n2 = 0;
+        for row in &mut c {
+            n2 += 1;
+            ok_len &= row.len() == w;
+        }
+        let mut it = c.rows_mut();
+        it.next();
+        let h1 = it.size_hint();
+        drop(it);
+        let same = c == *arr;
+        // writes through single rows picked with nth / last land in that row only
+        const MARK: i64 = -777_777;
+        if let Some(row) = c.rows_mut().nth(h / 2) {
+            row.fill(MARK);
+        }
+        if let Some(row) = (&mut c).into_iter().last() {
+            if let Some(x) = row.last_mut() {
+                *x = MARK + 1;
+            }
+        }
+        let mut want = g.rows.clone();
+        if h > 0 {
+            want[h / 2] = vec![MARK; w];
+            if w > 0 {
+                want[h - 1][w - 1] = MARK + 1;
+            }
+        }
+        let picked = c.rows().map(|r| r.to_vec()).collect::<Vec<_>>() == want && c.shape() == (h, w);
+        (h0, n1, n2, ok_len, h1, same && picked)
+    });
+    match itm {
+        None => ck.that(false, || "a mutable row-iterator method panicked".into()),
+        Some((h0, n1, n2, ok_len, h1, same)) => {
+            ck.that(h0 == (h, Some(h)) && n1 == h && n2 == h && ok_len, || format!("rows_mut(): size_hint {h0:?}, {n1} / {n2} rows, row lengths ok = {ok_len}; grid is {h}x{w}"));
+            ck.that(h1 == (h.saturating_sub(1), Some(h.saturating_sub(1))), || format!("rows_mut().size_hint() after one row = {h1:?} for {h} rows"));
+            ck.that(same, || "iterating rows_mut() without writing changed the array, or a write through rows_mut().nth(k) / last() did not land in that row only".into());
+        }
+    }
+    // ---- equality against nested vectors that differ from the grid (both directions must say `false`)
+    let t = &g.rows;
+    let differs = |other: &Vec<Vec<i64>>, ck: &mut Check, what: &str| {
+        if other == t {
+            return;
+        }
+        let q = (catch(|| *arr == *other), catch(|| *other == *arr));
+        ck.that(q == (Some(false), Some(false)), || format!("== against a different nested vector ({what}) {other:?}: {:?} / {:?}; grid rows {t:?}", q.0, q.1));
+    };
+    let flat: Vec<i64> = t.iter().flatten().copied().collect();
+    if h > 0 {
+        // one item changed at the corners and in the middle
+        for (r, c) in [(0, 0), (0, w.saturating_sub(1)), (h - 1, 0), (h - 1, w.saturating_sub(1)), (h / 2, w / 2)] {
+            if w > 0 {
+                let mut o = t.clone();
+                o[r][c] = o[r][c].wrapping_add(1);
+                differs(&o, ck, "one item changed");
+            }
+        }
+        // one row shorter / longer (first, middle, last), items otherwise equal
+        for r in [0, h / 2, h - 1] {
+            let mut o = t.clone();
+            o[r].push(0);
+            differs(&o, ck, "one row longer");
+            if w > 0 {
+                let mut o = t.clone();
+                o[r].pop();
+                differs(&o, ck, "one row shorter");
+            }
+        }
+        // same items in row-major order, other row boundaries (an item moved to the next row / previous row)
+        if h >= 2 && w >= 1 {
+            for r in [0, h - 2] {
+                let mut o = t.clone();
+                let x = o[r].pop().unwrap();
+                o[r + 1].insert(0, x);
+                differs(&o, ck, "same items, row boundary moved right");
+                let mut o = t.clone();
+                let x = o[r + 1].remove(0);
+                o[r].push(x);
+                differs(&o, ck, "same items, row boundary moved left");
+            }
+        }
+        // rows / columns exchanged
+        if w > 0 && h * w > 1 {
+            let tr: Vec<Vec<i64>> = (0..w).map(|c| (0..h).map(|r| t[r][c]).collect()).collect();
+            differs(&tr, ck, "transposed");
+            differs(&vec![flat.clone()], ck, "flattened to one row");
+            differs(&flat.iter().map(|x| vec![*x]).collect(), ck, "flattened to one column");
+        }
+        let mut o = t.clone();
+        o.push(vec![0; w]);
+        differs(&o, ck, "one more row");
+        let mut o = t.clone();
+        o.push(vec![]);
+        differs(&o, ck, "one more (empty) row");
+        differs(&t[1..].to_vec(), ck, "first row missing");
+    } else {
+        differs(&vec![vec![]], ck, "one empty row");
+        differs(&vec![vec![0; w.max(1)]], ck, "one row");
+    }
+    // every tuple of row lengths 0..=w+1 for the grid's number of rows, filled (a) with the grid's items in row-major
+    // order, (b) row by row with the grid's own row (cut or extended): only the tuple (w, ..., w) may compare equal
+    if heavy && h >= 1 && h <= 3 && w <= 3 {
+        let mut lens = vec![0usize; h];
+        loop {
+            if lens.iter().any(|l| *l != w) {
+                let mut k = 0;
+                let a: Vec<Vec<i64>> = lens
+                    .iter()
+                    .map(|l| {
+                        (0..*l)
+                            .map(|_| {
+                                k += 1;
+                                flat.get(k - 1).copied().unwrap_or(0)
+                            })
+                            .collect()
+                    })
+                    .collect();
+                differs(&a, ck, "row lengths differ, items in row-major order");
+                let b: Vec<Vec<i64>> = lens.iter().enumerate().map(|(r, l)| (0..*l).map(|c| t[r].get(c).copied().unwrap_or(0)).collect()).collect();
+                differs(&b, ck, "row lengths differ, rows cut or extended");
+            }
+            let mut i = 0;
+            while i < h {
+                lens[i] += 1;
+                if lens[i] <= w + 1 {
+                    break;
+                }
+                lens[i] = 0;
+                i += 1;
+            }
+            if i == h {
+                break;
+            }
+        }
+    }
+    if !ck.fails.is_empty() {
+        return;
+    }
+    // ---- copying transpose, as_scalar_unchecked
+    let tr = catch(|| arr.transpose());
+    match &tr {
+        None => ck.that(false, || "transpose() panicked".into()),
+        Some(m) => {
+            let ok = m.shape() == (w, h) && m.size() == h * w && (0..w.min(CAP)).all(|c| (0..h.min(CAP)).all(|r| catch(|| m[(c, r)]) == Some(t[r][c])));
+            ck.that(ok, || format!("transpose() is not the transposed grid: {m:?}"));
+            ck.that(catch(|| m.transpose() == *arr) == Some(true), || "transpose().transpose() differs from the array".into());
+        }
+    }
+    // indices far outside (products that overflow or wrap) still panic
+    let far = [
+        catch(|| arr[(usize::MAX, 0)]),
+        catch(|| arr[(0, usize::MAX)]),
+        catch(|| arr[(usize::MAX / 2 + 1, 2)]),
+        catch(|| arr[usize::MAX][0]),
+        catch(|| arr[(h + 1, 0)]),
+        catch(|| arr[(0, w + 1)]),
+        catch(|| arr[(h.saturating_sub(1), w)]),
+    ];
+    ck.that(far.iter().all(|v| v.is_none()), || format!("an access far outside the array did not panic: {far:?}"));
+    let su = catch(|| arr.as_scalar_unchecked());
+    ck.that(su == flat.first().copied(), || format!("as_scalar_unchecked() = {su:?}, first item {:?}", flat.first()));
+    // ---- the same array at other element types
+    // f64 (map to another type): exact halves
+    let f = catch(|| arr.map(|x| *x as f64 * 0.5));
+    match &f {
+        None => ck.that(false, || "map to f64 panicked".into()),
+        Some(m) => {
+            let want: Vec<Vec<f64>> = t.iter().map(|r| r.iter().map(|x| *x as f64 * 0.5).collect()).collect();
+            let rows_ok = catch(|| m.rows().map(|r| r.to_vec()).collect::<Vec<_>>() == want) == Some(true);
+            ck.that(m.shape() == (h, w) && m.size() == h * w && rows_ok, || format!("map(i64 -> f64): shape {:?}, rows differ from the mapped grid", m.shape()));
+            let cells_ok = (0..h.min(CAP)).all(|r| (0..w.min(CAP)).all(|c| catch(|| (m[(r, c)], m[r][c])) == Some((want[r][c], want[r][c]))));
+            ck.that(cells_ok, || "map(i64 -> f64): an item differs through an index form".into());
+            let fl: Vec<f64> = want.iter().flatten().copied().collect();
+            let (wmx, wmn) = (fl.iter().copied().reduce(f64::max), fl.iter().copied().reduce(f64::min));
+            let (mx, mn) = (catch(|| m.max()), catch(|| m.min()));
+            ck.that(mx == Some(wmx) && mn == Some(wmn), || format!("f64 array: max {mx:?} min {mn:?}, grid {wmx:?} {wmn:?}"));
+            let items: Vec<Vec<String>> = want.iter().map(|r| r.iter().map(|x| format!("{x}")).collect()).collect();
+            let d = catch(|| format!("{m}"));
+            let wt = text_of(h, w, &items);
+            ck.that(d.as_deref() == Some(wt.as_str()), || format!("Display of the f64 array {d:?}, layout {wt:?}"));
+            let q = (catch(|| *m == want), catch(|| want == *m));
+            ck.that(q == (Some(true), Some(true)), || format!("f64 array == its nested vector: {q:?}"));
+            if h * w > 0 {
+                let mut o = want.clone();
+                o[h - 1][w - 1] += 0.5;
+                if o != want {
+                    let q = (catch(|| *m == o), catch(|| o == *m));
+                    ck.that(q == (Some(false), Some(false)), || format!("f64 array == a different nested vector: {q:?}"));
+                }
+            }
+            let sc = catch(|| m.as_scalar());
+            ck.that(sc == Some(if h == 1 && w == 1 { Some(want[0][0]) } else { None }), || format!("f64 array: as_scalar {sc:?}"));
+            let mt = catch(|| m.transpose());
+            ck.that(mt.as_ref().map(|x| x.shape() == (w, h) && (0..w.min(CAP)).all(|c| (0..h.min(CAP)).all(|r| x[(c, r)] == want[r][c]))) == Some(true), || "f64 array: transpose wrong".into());
+        }
+    }
+    // String (not Copy): map, indexing, rows, max/min, Display, reshape, ==
+    let sm = catch(|| arr.map(|x| format!("<{x}>")));
+    match sm {
+        None => ck.that(false, || "map to String panicked".into()),
+        Some(mut m) => {
+            let want: Vec<Vec<String>> = t.iter().map(|r| r.iter().map(|x| format!("<{x}>")).collect()).collect();
+            let rows_ok = catch(|| m.rows().map(|r| r.to_vec()).collect::<Vec<_>>() == want) == Some(true);
+            ck.that(m.shape() == (h, w) && m.size() == h * w && rows_ok, || "map(i64 -> String): rows differ from the mapped grid".into());
+            let cells_ok = (0..h.min(CAP)).all(|r| (0..w.min(CAP)).all(|c| catch(|| m[(r, c)] == want[r][c] && m[r][c] == want[r][c]) == Some(true)));
+            ck.that(cells_ok, || "map(i64 -> String): an item differs through an index form".into());
+            let (wmx, wmn) = (want.iter().flatten().max().cloned(), want.iter().flatten().min().cloned());
+            let (mx, mn) = (catch(|| m.max()), catch(|| m.min()));
+            ck.that(mx == Some(wmx.clone()) && mn == Some(wmn.clone()), || format!("String array: max {mx:?} min {mn:?}, grid {wmx:?} {wmn:?}"));
+            let d = catch(|| format!("{m}"));
+            let wt = text_of(h, w, &want);
+            ck.that(d.as_deref() == Some(wt.as_str()), || format!("Display of the String array {d:?}, layout {wt:?}"));
+            let q = (catch(|| m == want), catch(|| want == m));
+            ck.that(q == (Some(true), Some(true)), || format!("String array == its nested vector: {q:?}"));
+            // reshape keeps the row-major order (no Copy needed)
+            if h * w > 0 {
+                let r = catch(|| m.reshape(1));
+                let fl: Vec<String> = want.iter().flatten().cloned().collect();
+                ck.that(matches!(r, Some(Ok(()))) && m.shape() == (1, h * w) && catch(|| m[0].to_vec()) == Some(fl), || "String array: reshape(1) is not the row-major flattening".into());
+            }
+        }
+    }
+    // u8 / i128 conversions of the whole array
+    let c8 = catch(|| Arr2D::<u8>::try_from(arr));
+    let fits = flat.iter().all(|x| (0..=255).contains(x));
+    match c8 {
+        None => ck.that(false, || "conversion to u8 panicked".into()),
+        Some(Ok(m)) => {
+            let ok = fits && m.shape() == (h, w) && (0..h.min(CAP)).all(|r| (0..w.min(CAP)).all(|c| catch(|| m[(r, c)] as i64) == Some(t[r][c])));
+            ck.that(ok, || format!("conversion to u8 succeeded with {m:?} for grid rows {t:?}"));
+        }
+        Some(Err(e)) => ck.that(!fits && err_kind(&e) == "conv", || format!("conversion to u8 failed with {e:?} for grid rows {t:?}")),
+    }
+    let c128 = catch(|| Arr2D::<i128>::try_from(arr));
+    match c128 {
+        Some(Ok(m)) => {
+            let ok = m.shape() == (h, w) && m.size() == h * w && catch(|| m.rows().map(|r| r.iter().map(|x| *x as i64).collect::<Vec<_>>()).collect::<Vec<_>>() == *t) == Some(true);
+            ck.that(ok, || format!("conversion to i128 gives {m:?} for grid rows {t:?}"));
+        }
+        other => ck.that(false, || format!("conversion to i128 failed: {other:?}")),
+    }
 }
 
 pub fn run(line: &str) -> Obs {
@@ -707,20 +1007,40 @@ pub fn run(line: &str) -> Obs {
     let (mut arr, mut g) = match (real, want) {
         (Ok(a), Ok(g)) => (a, g),
         (Err(k), Err(kinds)) => {
-            let v = if kinds.contains(&k) { Ok(()) } else { Err(format!("constructor fails with {}, expected one of {kinds:?}", k.show())) };
+            let mut v = if kinds.contains(&k) { Ok(()) } else { Err(format!("constructor fails with {}, expected one of {kinds:?}", k.show())) };
+            // the same refusal at other element types / container kinds
+            if let (Ok(()), Ctor::Nested(rows) | Ctor::NestedRef(_, rows)) = (&v, &ctor) {
+                if kinds.contains(&Kind::Err("rows")) {
+                    let ss: Vec<Vec<String>> = rows.iter().map(|r| r.iter().map(|x| x.to_string()).collect()).collect();
+                    let a = catch(|| Arr2D::<String>::try_from(ss).map(|m| m.shape()));
+                    let b = catch(|| Arr2D::<i128>::try_from(rows).map(|m| m.shape()));
+                    if !matches!(a, Some(Err(Arr2DError::InconsistentRowLengths))) || !matches!(b, Some(Err(Arr2DError::InconsistentRowLengths))) {
+                        v = Err(format!("ragged rows {rows:?} are not refused at String / i128 items: {a:?} / {b:?}"));
+                    }
+                }
+            }
+            if let (Ok(()), Ctor::Flat(d, dv, h, w)) = (&v, &ctor) {
+                let a = catch(|| Arr2D::from_flat(d.clone(), *dv, *h, *w).map(|m| m.shape()));
+                let ds: Vec<String> = d.iter().map(|x| x.to_string()).collect();
+                let b = catch(|| Arr2D::from_flat(ds.as_slice(), String::new(), *h, *w).map(|m| m.shape()));
+                if !matches!(a, Some(Err(Arr2DError::InvalidShape { .. }))) || !matches!(b, Some(Err(Arr2DError::InvalidShape { .. }))) {
+                    v = Err(format!("from_flat with {} items for {h}x{w} is not refused for an owned Vec / String items: {a:?} / {b:?}", d.len()));
+                }
+            }
             return Obs::with(k.show(), v);
         }
         (Err(k), Ok(_)) => return Obs::with(k.show(), Err(format!("constructor `{}` failed ({}) on valid arguments", ctor.req(), k.show()))),
         (Ok(a), Err(kinds)) => {
             let mut ck = Check { fails: vec![] };
-            let o = observe(&a, &OGrid::filled(0, a.height, a.width), &mut ck);
+            let o = observe(&a, &OGrid::filled(0, a.height, a.width), &mut ck, false);
             return Obs::with(format!("ok {o}"), Err(format!("constructor `{}` accepted invalid arguments (expected {kinds:?})", ctor.req())));
         }
     };
     let mut ck = Check { fails: vec![] };
     let mut out = String::with_capacity(1024);
     out.push_str("ok");
-    let first = observe(&arr, &g, &mut ck);
+    let first = observe(&arr, &g, &mut ck, !last_only || ops.is_empty());
+    ctor_side_checks(&ctor, &arr, &g, &mut ck);
     if !last_only || ops.is_empty() {
         out.push(' ');
         out.push_str(&first);
@@ -740,7 +1060,7 @@ pub fn run(line: &str) -> Obs {
         }
         out.push_str(" | ");
         out.push_str(&kind.show());
-        let o = observe(&arr, &g, &mut ck);
+        let o = observe(&arr, &g, &mut ck, !last_only || k + 1 == ops.len());
         if !last_only || k + 1 == ops.len() {
             out.push(' ');
             out.push_str(&o);
@@ -752,6 +1072,74 @@ pub fn run(line: &str) -> Obs {
         }
     }
     Obs::with(out, verdict)
+}
+
+/// The other instances of the constructor that was used: every accepted container kind, other element types.
+fn ctor_side_checks(c: &Ctor, arr: &Arr2D<i64>, g: &OGrid, ck: &mut Check) {
+    let t = &g.rows;
+    match c {
+        Ctor::New => {
+            ck.that(catch(|| Arr2D::<i64>::default() == *arr) == Some(true), || "Arr2D::default() differs from Arr2D::new()".into());
+            ck.that(catch(|| Arr2D::<String>::new().shape()) == Some((0, 0)), || "Arr2D::<String>::new() is not 0x0".into());
+        }
+        Ctor::Ident(n) => {
+            let n = *n;
+            let f = catch(|| Arr2D::<f64>::identity(n));
+            let ok = f.as_ref().map(|m| m.shape() == (n, n) && m.size() == n * n && (0..n).all(|r| (0..n).all(|c| m[(r, c)] == if r == c { 1.0 } else { 0.0 })));
+            ck.that(ok == Some(true), || format!("Arr2D::<f64>::identity({n}) is not the identity: {f:?}"));
+            let j = catch(|| Arr2D::<i32>::identity(n));
+            let ok = j.as_ref().map(|m| m.shape() == (n, n) && m.size() == n * n && (0..n).all(|r| (0..n).all(|c| m[(r, c)] == (r == c) as i32)));
+            ck.that(ok == Some(true), || format!("Arr2D::<i32>::identity({n}) is not the identity: {j:?}"));
+            let w = catch(|| Arr2D::<i128>::identity(n));
+            let ok = w.as_ref().map(|m| m.shape() == (n, n) && (0..n).all(|r| (0..n).all(|c| m[r][c] == (r == c) as i128)));
+            ck.that(ok == Some(true), || format!("Arr2D::<i128>::identity({n}) is not the identity: {w:?}"));
+        }
+        Ctor::Flat(d, v, h, w) => {
+            let (v, h, w) = (*v, *h, *w);
+            let kinds: Vec<(&str, Option<Result<Arr2D<i64>, Arr2DError>>)> = vec![
+                ("Vec", catch(|| Arr2D::from_flat(d.clone(), v, h, w))),
+                ("&Vec", catch(|| Arr2D::from_flat(d, v, h, w))),
+                ("&[T]", catch(|| Arr2D::from_flat(d.as_slice(), v, h, w))),
+                ("Box<[T]>", catch(|| Arr2D::from_flat(d.clone().into_boxed_slice(), v, h, w))),
+                ("Rc<[T]>", catch(|| Arr2D::from_flat(std::rc::Rc::<[i64]>::from(d.clone()), v, h, w))),
+            ];
+            for (name, r) in kinds {
+                ck.that(matches!(&r, Some(Ok(m)) if m == arr), || format!("from_flat({name}) gives {r:?}, the other container kinds {arr:?}"));
+            }
+            let ds: Vec<String> = d.iter().map(|x| x.to_string()).collect();
+            let s = catch(|| Arr2D::from_flat(&ds, v.to_string(), h, w));
+            let ok = match &s {
+                Some(Ok(m)) => m.shape() == (h, w) && catch(|| m.rows().map(|r| r.to_vec()).collect::<Vec<_>>()) == Some(t.iter().map(|r| r.iter().map(|x| x.to_string()).collect()).collect()),
+                _ => false,
+            };
+            ck.that(ok, || format!("from_flat at String items gives {s:?} for grid rows {t:?}"));
+        }
+        Ctor::Nested(rows) | Ctor::NestedRef(_, rows) => {
+            let ss: Vec<Vec<String>> = rows.iter().map(|r| r.iter().map(|x| x.to_string()).collect()).collect();
+            let a = catch(|| Arr2D::<String>::try_from(ss.clone()));
+            let ok = match &a {
+                Some(Ok(m)) => m.shape() == (g.h, g.w) && *m == ss,
+                _ => false,
+            };
+            ck.that(ok, || format!("TryFrom<Vec<Vec<String>>> gives {a:?} for rows {rows:?}"));
+            let b = catch(|| Arr2D::<i128>::try_from(rows));
+            let ok = match &b {
+                Some(Ok(m)) => m.shape() == (g.h, g.w) && catch(|| m.rows().map(|r| r.iter().map(|x| *x as i64).collect::<Vec<_>>()).collect::<Vec<_>>() == *t) == Some(true),
+                _ => false,
+            };
+            ck.that(ok, || format!("TryFrom<&Vec<Vec<i64>>> for Arr2D<i128> gives {b:?} for rows {rows:?}"));
+            if rows.iter().flatten().all(|x| *x >= I32_MIN && *x <= I32_MAX) {
+                let r32: Vec<Vec<i32>> = rows.iter().map(|r| r.iter().map(|x| *x as i32).collect()).collect();
+                let f = catch(|| Arr2D::<f64>::try_from(&r32));
+                let ok = match &f {
+                    Some(Ok(m)) => m.shape() == (g.h, g.w) && (0..g.h.min(CAP)).all(|r| (0..g.w.min(CAP)).all(|c| m[(r, c)] == t[r][c] as f64)),
+                    _ => false,
+                };
+                ck.that(ok, || format!("TryFrom<&Vec<Vec<i32>>> for Arr2D<f64> gives {f:?} for rows {rows:?}"));
+            }
+        }
+        _ => {}
+    }
 }
 
 // ------------------------------------------------------------------------------------------ generators
@@ -1051,10 +1439,249 @@ fn random_script(rng: &mut Rng, top: usize, len: usize) -> String {
     request(&c, &ops)
 }
 
-pub fn generate(seed: u64, thorough: bool, emit: &mut dyn FnMut(String)) {
+/// a constructor for any shape (the array-literal constructor stops at 6 x 6)
+fn big_ctor(rng: &mut Rng, h: usize, w: usize, labelled: bool) -> Ctor {
+    let mut k = 0i64;
+    let mut val = |rng: &mut Rng| {
+        k += 1;
+        if labelled { k } else { small_val(rng) }
+    };
+    let data: Vec<i64> = (0..h * w).map(|_| val(rng)).collect();
+    let rows: Vec<Vec<i64>> = (0..h).map(|r| data[r * w..(r + 1) * w].to_vec()).collect();
+    match rng.below(8) {
+        0 | 1 => Ctor::Nested(rows),
+        2 => Ctor::NestedRef(0, rows),
+        3 => Ctor::NestedRef(1, rows),
+        4 if h * w > 0 => Ctor::Flat(data, 0, h, w),
+        5 if h * w > 0 => {
+            let keep = rng.below((h * w) as u64 + 1) as usize;
+            Ctor::Flat(data[..keep].to_vec(), -7, h, w)
+        }
+        6 if h == w && !labelled => Ctor::Ident(h),
+        7 if !labelled => Ctor::Full(small_val(rng), h, w),
+        _ => Ctor::Nested(rows),
+    }
+}
+
+/// shapes with a dimension beyond every usual block size: structured chains and random scripts
+fn big_shapes(rng: &mut Rng, thorough: bool, emit: &mut dyn FnMut(String)) {
+    let mut shapes: Vec<(usize, usize)> = vec![];
+    for d in 7..=40usize {
+        shapes.push((d, 1 + d % 4));
+        shapes.push((1 + (d + 1) % 4, d));
+    }
+    for d in 7..=20usize {
+        shapes.push((d, d));
+    }
+    shapes.extend([(32, 33), (33, 32), (17, 34), (34, 17), (8, 16), (16, 8), (9, 15), (64, 2), (2, 64), (65, 1), (1, 65), (40, 40)]);
+    for &(h, w) in &shapes {
+        // a labelled array through a chain of every rearranging operation
+        let c = big_ctor(rng, h, w, true);
+        let size = h * w;
+        let divisors: Vec<usize> = (1..=size).filter(|d| size % d == 0).collect();
+        let mid = divisors[divisors.len() / 2];
+        let ops = vec![
+            Op::Transpose,
+            Op::Swap(0, w.saturating_sub(1)),
+            Op::TransposeMut,
+            Op::Swap(h - 1, h / 2),
+            Op::RowsMut { via: 0, code: 2, a: 0, b: 0 },
+            Op::Reshape(mid),
+            Op::Swap(mid - 1, 0),
+            Op::RowsMut { via: 1, code: 3, a: 1, b: 0 },
+            Op::Transpose,
+            Op::Reshape(h),
+            Op::Set(h - 1, w - 1, -5),
+            Op::Set2(0, w - 1, -6),
+            Op::FillRow(h / 2, 7),
+            Op::Convert(1),
+            Op::Reshape(1),
+            Op::TransposeMut,
+            Op::Reshape(w),
+            Op::Map { code: 2, a: 7, b: 3 },
+            Op::Clone,
+        ];
+        // (the harness oracle judges every step in full; the model prints the full observation after the last step
+        // and after the first three, which keeps the list-based model fast on 1000-cell arrays)
+        emit(format!("last {}", request(&c, &ops)));
+        emit(request(&c, &ops[..3]));
+        // invalid arguments on the large shape: nothing changes
+        let bad = vec![
+            Op::Reshape(size + 1),
+            Op::Reshape(0),
+            Op::Swap(h, 0),
+            Op::Swap(0, h),
+            Op::Set(h, 0, 1),
+            Op::Set(0, w, 1),
+            Op::Set2(0, w, 1),
+            Op::SetRow(0, vec![1; w + 1]),
+            Op::SetRow(h, vec![1; w]),
+            Op::FillRow(h, 1),
+            Op::Reshape(if size > 2 { size - 1 } else { 3 }),
+            Op::Transpose,
+        ];
+        emit(format!("last {}", request(&big_ctor(rng, h, w, false), &bad)));
+    }
+    for n in 6..=40usize {
+        let ops = [Op::Transpose, Op::Swap(0, n - 1), Op::Reshape(1)];
+        emit(if n <= 16 { request(&Ctor::Ident(n), &ops) } else { format!("last {}", request(&Ctor::Ident(n), &ops)) });
+    }
+    // random scripts: both dimensions up to 12, or one dimension up to 40
+    let n_rand = if thorough { 4000 } else { 350 };
+    for i in 0..n_rand {
+        let (h, w) = match i % 4 {
+            0 => (rng.range(7, 12) as usize, rng.range(1, 12) as usize),
+            1 => (rng.range(1, 12) as usize, rng.range(7, 12) as usize),
+            2 => (rng.range(13, 40) as usize, rng.range(0, 3) as usize),
+            _ => (rng.range(0, 3) as usize, rng.range(13, 40) as usize),
+        };
+        let c = big_ctor(rng, h, w, i % 3 == 0);
+        let len = if h * w <= 60 { 40 } else { 14 };
+        let mut ops = vec![];
+        if let Ok(mut g) = OGrid::build(&c) {
+            for _ in 0..len {
+                let op = rand_op(rng, g.h, g.w);
+                g.apply(&op);
+                ops.push(op);
+            }
+        }
+        emit(if h * w <= 150 { request(&c, &ops) } else { format!("last {}", request(&c, &ops)) });
+    }
+}
+
+/// text layout: columns mixing signs and widths of 1..20 characters (no arithmetic on the items)
+fn display_family(rng: &mut Rng, thorough: bool, emit: &mut dyn FnMut(String)) {
+    let pool: Vec<i64> = {
+        let mut v = vec![0, 1, -1, 9, -9, 10, -10, 99, -99, 100, -100, 999, -999, 1000, -1000, 12345, -12345, I32_MAX, I32_MIN, I32_MAX + 1, I32_MIN - 1, i64::MAX, i64::MIN, i64::MAX - 1, i64::MIN + 1];
+        for k in 1..=18u32 {
+            v.push(10i64.pow(k));
+            v.push(-(10i64.pow(k)));
+            v.push(10i64.pow(k) - 1);
+            v.push(-(10i64.pow(k) - 1));
+        }
+        v
+    };
+    let n = if thorough { 3000 } else { 300 };
+    for i in 0..n {
+        let h = 1 + rng.below(5) as usize;
+        let w = 1 + rng.below(6) as usize;
+        // each column has its own typical width; one cell of the column is wider / negative
+        let col_style: Vec<u64> = (0..w).map(|_| rng.below(4)).collect();
+        let mut data = vec![0i64; h * w];
+        for r in 0..h {
+            for c in 0..w {
+                data[r * w + c] = match col_style[c] {
+                    0 => rng.range(0, 9),
+                    1 => rng.range(-9, 9),
+                    2 => *rng.pick(&pool),
+                    _ => rng.range(-120, 120),
+                };
+            }
+        }
+        for c in 0..w {
+            if rng.chance(1, 2) {
+                data[rng.below(h as u64) as usize * w + c] = *rng.pick(&pool);
+            }
+        }
+        let rows: Vec<Vec<i64>> = (0..h).map(|r| data[r * w..(r + 1) * w].to_vec()).collect();
+        let c = match i % 4 {
+            0 => Ctor::Array(h, w, data.clone()),
+            1 => Ctor::Nested(rows),
+            2 => Ctor::NestedRef(0, rows),
+            _ => Ctor::Flat(data.clone(), *rng.pick(&pool), h, w),
+        };
+        let size = h * w;
+        let divisors: Vec<usize> = (1..=size).filter(|d| size % d == 0).collect();
+        let ops = vec![
+            Op::Transpose,
+            Op::Set(rng.below(w as u64) as usize, rng.below(h as u64) as usize, *rng.pick(&pool)),
+            Op::Reshape(*rng.pick(&divisors)),
+            Op::RowsMut { via: (i % 2) as u8, code: 2, a: 0, b: 0 },
+            Op::TransposeMut,
+            Op::Swap(0, 0),
+            Op::Convert(1),
+        ];
+        emit(request(&c, &ops));
+    }
+}
+
+/// nested vectors with more and longer rows than the exhaustive tuples: one or two rows deviate, sometimes so that the
+/// total number of items is that of a rectangle
+fn ragged_family(rng: &mut Rng, thorough: bool, emit: &mut dyn FnMut(String)) {
+    let n = if thorough { 4000 } else { 400 };
+    for i in 0..n {
+        let nrows = rng.range(2, 12) as usize;
+        let w = rng.range(0, 10) as usize;
+        let mut lens = vec![w; nrows];
+        let r1 = rng.below(nrows as u64) as usize;
+        match i % 5 {
+            0 => lens[r1] = w + 1 + rng.below(3) as usize,
+            1 => lens[r1] = w.saturating_sub(1 + rng.below(2) as usize),
+            2 | 3 => {
+                // compensated: one row longer, another shorter by the same amount
+                let r2 = (r1 + 1 + rng.below(nrows as u64 - 1) as usize) % nrows;
+                let d = 1 + rng.below(w.max(1) as u64) as usize;
+                if w >= d {
+                    lens[r1] = w + d;
+                    lens[r2] = w - d;
+                } else {
+                    lens[r1] = w + 1;
+                }
+            }
+            _ => {} // rectangular: accepted
+        }
+        let mut k = 0i64;
+        let rows: Vec<Vec<i64>> = lens
+            .iter()
+            .map(|l| {
+                (0..*l)
+                    .map(|_| {
+                        k += 1;
+                        k
+                    })
+                    .collect()
+            })
+            .collect();
+        let tail = [Op::TransposeMut, Op::Reshape(lens[0].max(1))];
+        let c = match i % 3 {
+            0 => Ctor::Nested(rows),
+            1 => Ctor::NestedRef(0, rows),
+            _ => Ctor::NestedRef(1, rows),
+        };
+        emit(request(&c, &tail));
+    }
+}
+
+pub fn generate(seed: u64, thorough: bool, out: &mut dyn FnMut(String)) {
     // the breadth-first exploration runs the real code, whose panics are expected here
     silence_panics();
     let mut rng = Rng::new(seed ^ 0xC12);
+    // requests on large shapes are costly for the list-based model: they are generated first and spread evenly over
+    // the request list (the check splits it into contiguous chunks, one per core)
+    let mut heavy: Vec<String> = vec![];
+    {
+        let mut rng_big = Rng::new(seed ^ 0xC12B16);
+        big_shapes(&mut rng_big, thorough, &mut |l| heavy.push(l));
+    }
+    let mut heavy_it = heavy.into_iter();
+    let mut count = 0usize;
+    let mut spread = |line: String| {
+        out(line);
+        count += 1;
+        if count % 128 == 0 {
+            if let Some(h) = heavy_it.next() {
+                out(h);
+            }
+        }
+    };
+    generate_light(&mut rng, thorough, &mut spread);
+    for h in heavy_it {
+        out(h);
+    }
+}
+
+fn generate_light(rng: &mut Rng, thorough: bool, emit: &mut dyn FnMut(String)) {
+    let mut rng = Rng(rng.next());
     // 1. every constructor on every shape 0..4 x 0..4 (valid, padded, ragged, oversized, empty), then
     //    one operation of each family
     for h in 0..=4usize {
@@ -1154,4 +1781,8 @@ pub fn generate(seed: u64, thorough: bool, emit: &mut dyn FnMut(String)) {
     for _ in 0..n_rand {
         emit(random_script(&mut rng, 6, 40));
     }
+    // 4. text layout with items of 1..20 characters, ragged vectors of up to 12 rows (shapes with a dimension of
+    //    7..65 are interleaved by `generate`)
+    display_family(&mut rng, thorough, emit);
+    ragged_family(&mut rng, thorough, emit);
 }
